@@ -7,6 +7,7 @@ import (
 	"io"
 	"math"
 	"os"
+	"reflect"
 	"slices"
 	"strings"
 	"unsafe"
@@ -296,9 +297,11 @@ func (f *BytecodeFunction) AddValue(obj value.Value) (int, IntSize) {
 	var id int
 	if obj.IsReference() {
 		objRef := obj.AsReference()
+		// struct-typed references (eg. native hash records) cannot be compared with ==
+		comparable := reflect.TypeOf(objRef).Comparable()
 		i := -1
 		for j, value := range f.Values {
-			if !value.IsReference() {
+			if !comparable || !value.IsReference() {
 				continue
 			}
 
